@@ -1,4 +1,4 @@
-From Urwid Require Import Canvas.
+From Urwid Require Import Canvas CanvasHeap.
 From Coq Require Extraction ExtrOcamlBasic.
 Extraction Language OCaml.
-Extraction "model.ml" run_case.
+Extraction "model.ml" CanvasHeap.run_case.
